@@ -51,31 +51,34 @@ func observe(k int, e error) string {
 // observers run from 16 goroutines under the race detector.
 func H_C18_ReadOnly(v *sym.V) {
 	g := newG(v, sym.REGNN)
-	b := g.BuildUpTo("e", v.Param("D", 2), gen.AllLeaves, gen.AllWrappers)
+	g.ClsSafe = sym.Class(v.Param("safecls", int(sym.REGNN))) // HOST: safe strings that are not valid UTF-8
+	b := build(v, g, "e")
 	e := b.Err
 	if v.Choice("decoded", 2) == 1 {
 		e = wire.Hop(e)
 	}
 	k := v.Choice("observer", numObservers)
 	if !v.Symbolic() {
-		// native replay: concurrent observers under -race, results must agree
-		alone := observe(k, e)
+		// native replay: concurrent observers under -race (no call before the
+		// goroutines start, so that a lazily initialised field is raced on);
+		// all results must agree with each other and with a later call alone
 		var wg sync.WaitGroup
-		var mu sync.Mutex
-		same := true
+		results := make([]string, 16)
 		for i := 0; i < 16; i++ {
 			wg.Add(1)
-			go func() {
+			go func(i int) {
 				defer wg.Done()
 				for j := 0; j < 20; j++ {
-					r := observe(k, e)
-					mu.Lock()
-					same = same && r == alone
-					mu.Unlock()
+					results[i] = observe(k, e)
 				}
-			}()
+			}(i)
 		}
 		wg.Wait()
+		alone := observe(k, e)
+		same := true
+		for _, r := range results {
+			same = same && r == alone
+		}
 		v.Assert("deterministic@"+observerNames[k], same)
 		return
 	}
